@@ -131,6 +131,16 @@ def check_doc(case):
         diff = X.same(g[agn], X.render(X.T(base, agn)))
         if diff:
             raise Bad('agnostic-doc', f'{agn}: {diff}\n--- source\n{text}--- {agn}\n{out[agn]}')
+    # the same under category selections: the agnostic text is still the kern text with the pitch letters converted
+    from .. import cats
+    TC = kp.TokenCategory
+    for excl in (['DURATION'], ['DECORATION'], ['ALTERATION', 'DECORATION']):
+        sel = cats.selected(None, excl)
+        for agn in ('akern', 'aekern'):
+            gt = K.dumps(kdoc, what=agn, encoding=K.ENCODINGS[agn], exclude=[TC[x] for x in excl])
+            diff = X.same(K.grid(gt), X.render(X.T(X.F(base, sel), agn)))
+            if diff:
+                raise Bad('agnostic-doc-filtered', f'{agn} with exclude={excl}: {diff}\n--- source\n{text}--- {agn}\n{gt}')
     clefs = [c['t'] for _, _, c in S.cells(doc) if c.get('sig') == 'clef']
     nt = len(set(clefs)) > 1 or a.has_split
     changes_in_sub = any(c.get('sig') == 'clef' and a.spines[i].count(a.spines[i][k]) > 1 for i, k, c in S.cells(doc))
